@@ -29,7 +29,15 @@ pub enum Mode {
     ChildSys { plan: SysPlan, to_stdout: bool },
     /// library level: simplify with the strategy, extract with the given extractor mode, in the
     /// given graph backend (no I/O, no process boundary)
-    Lib { ex: ExMode, up_to_perm: bool, hash_backend: bool },
+    Lib {
+        ex: ExMode,
+        up_to_perm: bool,
+        hash_backend: bool,
+        /// the diagram is built with `to_graph_with_options(true, false)`: local simplification
+        /// after every gate while the circuit is being translated (circuit.rs), before the strategy
+        #[serde(default)]
+        simp_build: bool,
+    },
 }
 
 #[derive(Clone, Copy, Debug, Serialize, Deserialize, PartialEq)]
@@ -320,7 +328,12 @@ impl Property for C03 {
                 if ex == ExMode::Flow {
                     strategy = Strategy::Flow;
                 }
-                Mode::Lib { ex, up_to_perm: d.coin("lib.perm", 1, 3), hash_backend: d.coin("lib.hb", 1, 2) }
+                // the diagram built with local simplification after every gate is a legal diagram of
+                // the circuit (same linear map), but not of the shape the flow strategy relies on:
+                // only the Clifford and full strategies, which normalise any graph-like diagram,
+                // are asked to cope with it (DESIGN §9.4)
+                let sb = d.coin("lib.sb", 1, 4) && strategy != Strategy::Flow;
+                Mode::Lib { ex, up_to_perm: d.coin("lib.perm", 1, 3), hash_backend: d.coin("lib.hb", 1, 2), simp_build: sb }
             }
             "child" => Mode::ChildStdout,
             "faults" => {
@@ -531,11 +544,11 @@ impl Property for C03 {
                 }
                 out.nontrivial = fired > 0;
             }
-            Mode::Lib { ex, up_to_perm, hash_backend } => {
+            Mode::Lib { ex, up_to_perm, hash_backend, simp_build } => {
                 use quizx::extract::ToCircuit;
                 use quizx::graph::GraphLike;
-                fn go<G: GraphLike + ToCircuit>(qc: &quizx::circuit::Circuit, strategy: Strategy, ex: ExMode, up_to_perm: bool) -> Result<(String, usize), String> {
-                    let mut g: G = qc.to_graph();
+                fn go<G: GraphLike + ToCircuit>(qc: &quizx::circuit::Circuit, strategy: Strategy, ex: ExMode, up_to_perm: bool, sb: bool) -> Result<(String, usize), String> {
+                    let mut g: G = if sb { qc.to_graph_with_options(true, false) } else { qc.to_graph() };
                     match strategy {
                         Strategy::Default | Strategy::Full => {
                             quizx::simplify::full_simp(&mut g);
@@ -566,19 +579,30 @@ impl Property for C03 {
                 if *up_to_perm {
                     out.probe("lib.up_to_perm");
                 }
+                if *simp_build {
+                    out.probe("lib.simplified_while_building");
+                }
+                let sb = *simp_build;
                 let qc = gen::to_quizx_circuit(&sc.circ);
                 let (strategy, ex, utp, hb) = (sc.strategy, *ex, *up_to_perm, *hash_backend);
                 let core = crate::simcore::Core::new(dec, 1);
                 let (res, core) = crate::simcore::with_sim(core, move || {
                     if hb {
-                        go::<quizx::hash_graph::Graph>(&qc, strategy, ex, utp)
+                        go::<quizx::hash_graph::Graph>(&qc, strategy, ex, utp, sb)
                     } else {
-                        go::<quizx::vec_graph::Graph>(&qc, strategy, ex, utp)
+                        go::<quizx::vec_graph::Graph>(&qc, strategy, ex, utp, sb)
                     }
                 });
                 dec = core.dec;
                 out.steps += 1;
-                let how = format!("library: {:?} simplification, {:?} extractor{}, {} backend", sc.strategy, ex, if utp { " up to permutation" } else { "" }, if hb { "hash" } else { "vector" });
+                let how = format!(
+                    "library: {}{:?} simplification, {:?} extractor{}, {} backend",
+                    if sb { "diagram simplified while it is built, " } else { "" },
+                    sc.strategy,
+                    ex,
+                    if utp { " up to permutation" } else { "" },
+                    if hb { "hash" } else { "vector" }
+                );
                 match res {
                     crate::simcore::Caught::Ok(Ok((text, _nq))) => {
                         judge_output_perm(&sc.circ, &text, &how, sub, utp, &mut out);
